@@ -36,7 +36,7 @@ STUB_COMPONENTS = ["leaf processors (with a counting tick, nothing recorded per 
 ASSUMPTIONS = ["gc object increments are reproducible to within a few objects per 100 runs inside a forked child (a no-op control history calibrates the harness's own "
                "footprint to 0)", "proportional growth is what is forbidden; a constant offset is allowed"]
 REQUIRED_PROBES = ["mode.reuse", "mode.fresh", "mode.launch", "mode.queue", "mode.launches", "queue_job_profile_with_unimportable_module", "pipeline_with_sweep", "pipeline_with_shorthand",
-                   "failing_configuration_repeated", "traced_repeats", "queue_fire_and_forget_jobs", "cli_transport_selected_in_config"]
+                   "failing_configuration_repeated", "traced_repeats", "queue_fire_and_forget_jobs", "cli_transport_selected_in_config", "fresh_pipelines_sharing_one_orchestrator"]
 CONFIG = {
     "quick": {"runs": 64, "budget_s": 240, "timeout_s": 400},
     "thorough": {"runs": 1600, "budget_s": 1700, "timeout_s": 600},
@@ -65,7 +65,8 @@ def generate(rng: random.Random, tier: str, seed: int) -> dict:
           "launches_run_space": rng.random() < 0.6,     # mode `launches`: each launch is a one-run run-space launch, directory trace output
           "bad_profile_module": rng.random() < 0.35,   # queue mode: the job's registry profile names a module that cannot be imported
           "fire_forget": rng.random() < 0.5,           # queue mode: jobs enqueued without a Future (nobody awaits their result)
-          "cli_transport": rng.random() < 0.5}         # launch / launches: the configuration selects its transport explicitly
+          "cli_transport": rng.random() < 0.5,
+          "shared_orchestrator": rng.random() < 0.4}   # fresh mode: every new Pipeline is given the same orchestrator instance         # launch / launches: the configuration selects its transport explicitly
     if rng.random() < 0.3:
         # the repeated configuration FAILS at a node after the first one (every repetition raises / fails its Future)
         fs = [f for f in gen.applicable_failures(base) if f[0] in ("unresolvable", "type_gate", "undeclared_op", "undeclared_ctx") and f[1] >= 1]
@@ -265,8 +266,9 @@ def _run_mode(sc: dict, mode: str, w, stats: dict) -> list[dict]:
 
         sampler.by_harness = mode in ("reuse", "fresh", "launches") or (mode == "queue" and bool(sc.get("fire_forget")))
 
-        def one(p):
-            sampler.tick_run()
+        def one(p, tick=True):
+            if tick:
+                sampler.tick_run()
             try:
                 p.process(Payload(NoDataType(), ContextType(copy.deepcopy(base["context"]))))
                 if failing:
@@ -294,10 +296,21 @@ def _run_mode(sc: dict, mode: str, w, stats: dict) -> list[dict]:
             for _ in range(total):
                 one(p)
         elif mode == "fresh":
+            shared = None
+            if sc.get("shared_orchestrator"):
+                from semantiva.execution.orchestrator.orchestrator import LocalSemantivaOrchestrator
+                shared = LocalSemantivaOrchestrator()
+                roots["shared_orchestrator"] = shared
             for _ in range(total):
-                p = Pipeline(copy.deepcopy(nodes), logger=lg, trace=driver("fresh"))
-                one(p)
-            del p
+                sampler.tick_run()
+                try:
+                    p = Pipeline(copy.deepcopy(nodes), logger=lg, trace=driver("fresh"), **({"orchestrator": shared} if shared is not None else {}))
+                except Exception:
+                    if not failing:
+                        raise
+                    continue
+                one(p, tick=False)
+            p = None
         elif mode == "launch":
             svworld.WORLD = w   # cwd/sandbox only; leaves record nothing because w.quiet is set
             rs = {"max_runs": 1000, "blocks": [{"mode": "by_position", "context": {"rs_idx": [float(i) for i in range(total)]}}]}
@@ -488,6 +501,8 @@ def execute(sc: dict, seed: int) -> dict:
             stats["probe.queue_fire_and_forget_jobs"] = 1
         if sc.get("cli_transport") and ("launch" in sc["modes"] or "launches" in sc["modes"]):
             stats["probe.cli_transport_selected_in_config"] = 1
+        if sc.get("shared_orchestrator") and "fresh" in sc["modes"]:
+            stats["probe.fresh_pipelines_sharing_one_orchestrator"] = 1
         if sc.get("bad_profile_module") and "queue" in sc["modes"]:
             stats["probe.queue_job_profile_with_unimportable_module"] = 1
             stats["fault.module_import_error"] = 1
